@@ -328,7 +328,10 @@ func (d *bdrv) start(m *lmon) error {
 func (d *bdrv) waitStarted(m *lmon) int {
 	n := len(m.files)
 	r := m.waitL(lineWaitLimit, 0, nil, func() bool { return d.b.ActiveFileCount() == n || d.b.ReadErrors() > 0 })
-	if r == wOK && d.b.ReadErrors() == 0 {
+	if r == wOK && d.b.ReadErrors() > 0 {
+		return wTimeout // the files exist: opening them failed for an environmental reason (inotify limits ...)
+	}
+	if r == wOK {
 		d.started.Store(true)
 	}
 	return r
@@ -411,6 +414,7 @@ type cdrv struct {
 	stderr bytes.Buffer
 	done   chan struct{}
 	ending atomic.Bool
+	env    atomic.Bool
 	argv   []string
 }
 
@@ -480,7 +484,9 @@ func (d *cdrv) start(m *lmon) error {
 		}
 		m.mu.Lock()
 		m.closed = true
-		if !d.ending.Load() {
+		if se := d.stderr.String(); strings.Contains(se, "too many open files") || strings.Contains(se, "Unable to open file") || strings.Contains(se, "no space left") {
+			d.env.Store(true) // inotify instance limit etc.: environment, not the property
+		} else if !d.ending.Load() {
 			for _, f := range m.files {
 				if !f.removed {
 					m.fail("ended-while-present", fmt.Sprintf("`rare %s` ended its output although %s still exists and was not removed; stderr: %s", strings.Join(args, " "), f.id, run.Q(d.stderr.String())))
@@ -556,5 +562,10 @@ func runCLI(c *run.Ctx, cs *Case, dir string) outcome {
 	if c.RareBin == "" {
 		return outcome{inconclusive: "no rare binary"}
 	}
-	return runLines(c, cs, dir, &cdrv{c: c, cs: cs})
+	d := &cdrv{c: c, cs: cs}
+	out := runLines(c, cs, dir, d)
+	if d.env.Load() {
+		return outcome{inconclusive: "cli level: the rare process could not follow for an environmental reason: " + run.Q(d.stderr.String())}
+	}
+	return out
 }
